@@ -375,7 +375,11 @@ func cmdDigest(args []string) int {
 			runSeed := choice.Mix(*seed, choice.MixString(p.ID+"/"+name), 0, uint64(i))
 			src := choice.New(runSeed)
 			kickWatchdog("digest")
+			t0 := time.Now()
 			r := runEntry(p, e, src)
+			if d := time.Since(t0); d > 200*time.Millisecond && os.Getenv("SIMRUN_SLOW") != "" {
+				fmt.Fprintf(os.Stderr, "SLOW run %d: %v\n  %v\n", i, d, r.Sample)
+			}
 			v := ""
 			if r.Violation != nil {
 				v = r.Violation.String()
